@@ -91,6 +91,8 @@ KNOWN_TEST_INPUTS = {
 
 # witnesses of findings that were fixed in /repo (known/C03.txt "fixed:" lines): ordinary regression cases now
 REGRESSION_DOCS = [
+    ('<p>a <embed src=x> b</p>', 0, True, 0),
+    ('<p>x <audio controls src=x>a </audio> y</p>', 0, True, 0),
     ('<table><colgroup class=x></colgroup><template></template><tbody><tr><td>a</td></tr></tbody></table>', 0, True, 0),
     ('<table><colgroup><col></colgroup><colgroup><col></colgroup><tr><td>a</td></tr></table>', 0, False, 0),
     ('<table><colgroup></colgroup><tr><td>a</td></tr></table>', 0, False, 0),
@@ -178,7 +180,7 @@ def comment_position_cases(ctx):
 #     before, inside (leading / inner / trailing blanks) and after it.
 PHRASING_EL = ['a href=x', 'abbr', 'b', 'bdi', 'bdo dir=ltr', 'cite', 'code', 'data value=1', 'dfn', 'em', 'i', 'kbd', 'mark', 'q', 's', 'samp',
                'small', 'span', 'strong', 'sub', 'sup', 'time', 'u', 'var', 'label', 'output', 'button', 'del', 'ins', 'map name=m', 'slot',
-               'my-el', 'meter value=1', 'progress', 'canvas', 'object data=x', 'video src=x', 'noscript', 'template',
+               'my-el', 'meter value=1', 'progress', 'canvas', 'object data=x', 'video src=x', 'audio src=x controls', 'noscript', 'template',
                'datalist id=l', 'textarea', 'ruby']
 FLOW_EL = ['div', 'p', 'address', 'article', 'aside', 'blockquote', 'dialog open', 'footer', 'header', 'form', 'h1', 'h2', 'h3', 'h4', 'h5', 'h6',
            'main', 'nav', 'section', 'pre', 'search', 'fieldset', 'figure', 'details', 'menu', 'ol', 'ul', 'dl', 'table', 'hgroup', 'select', 'picture']
@@ -245,15 +247,12 @@ def element_probe_cases(ctx):
             add(tmpl.replace('%s', t), frag=not tmpl.startswith('<!doctype'))
     for el in VOID_EL:
         for a, b in (('a ', ' b'), ('a', 'b'), ('a ', 'b'), ('a', ' b')):
-            if el.startswith('embed') and (a, b) == ('a ', ' b'):
-                continue        # known finding: embed (a replaced element) is treated as transparent inline
             add('<p>%s<%s>%s</p>' % (a, el, b))
     for a, b in (('a ', ' b'), ('a', 'b')):
         add('<div>%s<hr>%s</div>' % (a, b))
         add('<div>%s<center> c d </center>%s</div>' % (a, b))
-        if (a, b) == ('a', 'b'):   # (with blanks on both sides: known finding, audio is treated as transparent inline)
-            add('<p>%s<audio src=x controls></audio>%s</p>' % (a, b))
-            add('<p>%s<audio src=x controls>c</audio>%s</p>' % (a, b))
+        add('<p>%s<audio src=x controls></audio>%s</p>' % (a, b))
+        add('<p>%s<audio src=x controls>c</audio>%s</p>' % (a, b))
     return out
 
 
@@ -817,7 +816,7 @@ def run(ctx):
              'walks, all inputs of html/html_test.go, template-delimiter documents; each crossed with Keep* option sets '
              '(8 pairwise-covering sets; all 128 for the test inputs in thorough) and read as fragment (body context) '
              'and as document; a case is (input bytes, options, fragment?, delimiters); non-trivial = the real minifier '
-             'changed the bytes.  Generator exclusions (known findings, pinned in known/C03.ndjson): X7 empty attribute-less script/style; X11 optgroup directly inside template contents; blanks on both sides of embed/audio (fixed probe family); X10 a kept comment (KeepComments/KeepSpecialComments) directly after a dropped tag; %d repository test inputs '
+             'changed the bytes.  Generator exclusions (known findings, pinned in known/C03.ndjson): X7 empty attribute-less script/style; X11 optgroup directly inside template contents; X10 a kept comment (KeepComments/KeepSpecialComments) directly after a dropped tag; %d repository test inputs '
              'that are not conforming HTML (listed in tools/props/c03.py)' % len(skipped),
         samples=samples,
         exhaustive=True,
